@@ -29,8 +29,9 @@ type mutRec struct {
 }
 
 type getRec struct {
-	key int
-	at  int64
+	key    int
+	at     int64
+	arrive int64 // clock just before the Seek/Next call that moved the cursor onto this item
 }
 
 // C15: skiplist iterators stay ordered and complete under concurrent modification.
@@ -101,6 +102,7 @@ func TestC15(t *testing.T) {
 			}
 			th.InOp = true
 			scanStart = s.Tick()
+			arrive := scanStart
 			if useSeek {
 				it.Seek(w.item(seekKey))
 			} else {
@@ -112,7 +114,7 @@ func TestC15(t *testing.T) {
 				if mm && !w.arena.IsLive(unsafe.Pointer(it.GetNode())) {
 					panic(fmt.Sprintf("STALE-NODE: iterator stands on node of key %d which has been freed", k))
 				}
-				gets = append(gets, getRec{k, s.Tick()})
+				gets = append(gets, getRec{k, s.Tick(), arrive})
 				readerCur = k
 				if n == pauseAt {
 					it.Pause()
@@ -125,11 +127,12 @@ func TestC15(t *testing.T) {
 					}
 					if k2 := skiplist.IntFromItem(it.Get()); k2 != k {
 						// the key vanished while paused; continue from its successor
-						gets = append(gets, getRec{k2, s.Tick()})
+						gets = append(gets, getRec{k2, s.Tick(), arrive})
 						readerCur = k2
 					}
 				}
 				s.Yield(0)
+				arrive = s.Tick()
 				it.Next()
 				n++
 				if n > 200 {
@@ -219,12 +222,14 @@ func TestC15(t *testing.T) {
 			if b.key == a.key {
 				ok := false
 				for _, m := range muts {
-					if m.insert && m.ok && m.key == a.key && m.call < b.at && m.ret > a.at {
+					// "meanwhile" starts when the cursor moved onto the first of the two (it may have been
+					// parked on that node, since deleted, long before it reported it)
+					if m.insert && m.ok && m.key == a.key && m.call < b.at && m.ret > a.arrive {
 						ok = true
 					}
 				}
 				if pauseAt >= 0 {
-					ok = ok || true // re-seek after a pause legitimately lands on the same key
+					ok = true // re-seek after a pause legitimately lands on the same key
 				}
 				if !ok {
 					f.failf("iterator-duplicate", "item %d returned twice in a row without a re-insert in between\n%s", a.key, desc())
